@@ -1,7 +1,10 @@
 """RotatedToric3DCode: hand-written all-sizes Lean model (Model/Lattices/RotatedToric3DCode.lean)
 against panqec/codes/surface_3d/_rotated_toric_3d_code.py (seam rules, defect lines for an odd L_x or
 L_y, vertical faces dropped on the defect column, logical operators as comprehensions over
-qubit_coordinates), and the all-sizes theorems of Properties/C01RotatedToric3DCode.lean."""
+qubit_coordinates), and the all-sizes theorems of Properties/C01RotatedToric3DCode.lean.  The stream
+`rank-family` evaluates the model's `rankFamily` (theorem `rank_family`, both parities of the family) on
+the implementation's parity-check matrix: members are stabilizer locations, distinct, n - k of them, and
+the selected rows have GF(2) rank n - k."""
 from harness import lat_cubic3d as U
 
 CLASS = 'RotatedToric3DCode'
@@ -18,4 +21,4 @@ def supported(L):
 
 def streams(ctx):
     extra = EXTRA_SIZES + (EXTRA_SIZES_THOROUGH if ctx.thorough else [])
-    return U.streams_for(ctx, CLASS, supported, 3401, extra_sizes=extra, with_rank=False)
+    return U.streams_for(ctx, CLASS, supported, 3401, extra_sizes=extra)
